@@ -70,6 +70,21 @@ def extract(repo):
         put("timeAxisKind", _time_axis_kind(runf) if runf else None)
     except Exception as e:  # pragma: no cover
         missing.append(f"base_backend.py: {e}")
+    # ---- parser.replace / var_in_expression: allowed follow-up signs (C15, C05)
+    try:
+        pp = _parse(repo, "pyrates/backend/parser.py")
+        for fname, var, key in (("replace", "allowed_follow_ops", "replaceAllowedFollowOps"),
+                                ("var_in_expression", "follow_ops", "varInExprFollowOps")):
+            fn = _func(pp, fname)
+            val = None
+            if fn:
+                for st in ast.walk(fn):
+                    if isinstance(st, ast.Assign) and len(st.targets) == 1 and isinstance(st.targets[0], ast.Name) \
+                            and st.targets[0].id == var and isinstance(st.value, ast.Constant) and isinstance(st.value.value, str):
+                        val = st.value.value
+            put(key, val)
+    except Exception as e:  # pragma: no cover
+        missing.append(f"parser.py: {e}")
     return T, missing
 
 
@@ -142,6 +157,9 @@ def render(T, missing):
     L.append(f"def heunCopiesRhs : Bool := {'true' if T.get('heunCopiesRhs') is True else 'false'}")
     L.append(f"/-- BaseBackend.run builds `times` as np.arange(n)*step (true) or as linspace(0,T,n,endpoint=False)/unknown (false) -/")
     L.append(f"def timeAxisIsArange : Bool := {'true' if T.get('timeAxisKind') == 'arangeStep' else 'false'}")
+    for key in ("replaceAllowedFollowOps", "varInExprFollowOps"):
+        v = T.get(key)
+        L.append(f"def {key} : String := {lean_str(v if isinstance(v, str) else '')}")
     L += ["", "/-- entries the extractor could not find in the source (a theorem that needs one fails to build) -/",
           f"def missing : List String := {lean_list(missing)}", "", "end PyRates.Tables", ""]
     return "\n".join(L)
